@@ -812,6 +812,74 @@ package server
 //@     | ==> cast(target.References[k], "[]interface{}")[(isList(old(target.References[k])) ? len(cast(old(target.References[k]), "[]interface{}")) : 1) + i] == (isList(source.References[k]) ? cast(source.References[k], "[]interface{}")[i] : source.References[k])
 
 // ---------------------------------------------------------------------------
+// C06 / C01 / C07: entity lookup as of an instant. The json index of one entity is scanned in key order (dataset, then commit time).
+// A version is a candidate only if it was recorded at or before the instant and its dataset is live and in scope; the candidate kept
+// for a dataset is the last such version in key order, i.e. the newest one not after the instant; every dataset yields one partial.
+
+//@ lemma json_scan_order(t int, i int, j int): 0 <= i && i <= j && j < N(t) && kcl(K(t, i)) == 1 && kcl(K(t, j)) == 1 && k64at2(K(t, i)) == k64at2(K(t, j)) ==> k32at10(K(t, i)) <= k32at10(K(t, j)) && (k32at10(K(t, i)) == k32at10(K(t, j)) ==> krid(K(t, i)) <= krid(K(t, j)))
+
+// TRUSTED data invariant of the store: json-index keys carry the id of a created dataset, and dataset ids start at 1
+// (Store.Open initialises nextDatasetID to 1; CreateDataset hands out nextDatasetID and only ever increases it, see C07)
+//@ axiom json_keys_carry_created_dataset_ids: forall t int, i int :: 0 <= i && i < N(t) && kcl(K(t, i)) == 1 ==> k32at10(K(t, i)) >= 1
+
+//@ assumed (*MetaContext).RegisterQuerySideInput
+//@   pure
+//@ assumed (*Store).mergePartials
+//@   modifies map[string]interface{}, []interface{}
+//@ assumed (*Store).createMultiOriginEntity
+//@   pure
+//@   ensures result != nil
+//@ assumed (*Store).getURIForID
+//@   pure
+
+//@ unit (*Store).GetEntityAtPointInTimeWithInternalID
+//@   prop C06 C01 C07
+//@   ghost txnG int
+//@   ghost pos0G int
+//@   ghost curG int
+//@   ghost accG int = 0 - 1
+//@   ghost valG int = 0
+//@   ghost emittedG intset = emptyset()
+//@   requires s != nil && s.MetaCtx != nil
+//@   requires-inv [existing-objects] foreign(s.deletedDatasets)
+//@   safe slice
+//@   at call NewIterator#1
+//@     ghost txnG := rtxn
+//@   at call Seek#1
+//@     ghost pos0G := $itPos[entityLocatorIterator]
+//@   at call Item#1
+//@     ghost curG := $itPos[entityLocatorIterator]
+//@     use json_scan_order(txnG, accG, curG)
+//@   at call ValueCopy#1 before
+//@     assert [C06:only-versions-recorded-at-or-before-the-instant-are-candidates] krid(K(txnG, curG)) <= at && $itemKey[item] == K(txnG, curG)
+//@     assert [C07:versions-of-deleted-datasets-are-never-candidates] !(has(s.deletedDatasets, k32at10(K(txnG, curG))) && s.deletedDatasets[k32at10(K(txnG, curG))])
+//@     assert [C01:versions-outside-the-requested-datasets-are-never-candidates] len(targetDatasetIds) == 0 || (exists k int :: 0 <= k && k < len(targetDatasetIds) && targetDatasetIds[k] == k32at10(K(txnG, curG)))
+//@     assert [C06,C01:candidates-come-in-dataset-then-time-order] accG >= 0 ==> k32at10(K(txnG, accG)) <= k32at10(K(txnG, curG)) && (k32at10(K(txnG, accG)) == k32at10(K(txnG, curG)) ==> krid(K(txnG, accG)) <= krid(K(txnG, curG)))
+//@     ghost accG := curG
+//@   at call ValueCopy#1
+//@     ghost valG := arrOf($result0)
+//@   at call Unmarshal#1 before
+//@     assert [C06:a-partial-is-closed-only-by-a-candidate-of-a-later-dataset] krid(K(txnG, curG)) <= at && k32at10(K(txnG, curG)) > previousDatasetID
+//@     assert [C06,C01:partial-is-decoded-from-the-last-candidate-of-its-dataset] arrOf(data) == valG && accG >= 0 && k32at10(K(txnG, accG)) == previousDatasetID
+//@     assert [C01:one-partial-per-dataset] !has(emittedG, previousDatasetID)
+//@     ghost emittedG := add(emittedG, previousDatasetID)
+//@   at call Unmarshal#2 before
+//@     assert [C06,C01:last-partial-is-decoded-from-the-last-candidate] arrOf(data) == valG && accG >= 0 && k32at10(K(txnG, accG)) == previousDatasetID
+//@     assert [C01:one-partial-per-dataset] !has(emittedG, previousDatasetID)
+//@   loop 1
+//@     invariant $itTxn[entityLocatorIterator] == txnG && !has($itRev, entityLocatorIterator) && $itPlen[entityLocatorIterator] == 10 && $itPcl[entityLocatorIterator] == 1 && $itP64[entityLocatorIterator] == internalID
+//@     invariant len(entityLocatorPrefixBuffer) == 10 && encBE16(entityLocatorPrefixBuffer, 0) == 1 && encBE64(entityLocatorPrefixBuffer, 2) == internalID
+//@     invariant 0 <= pos0G && pos0G <= $itPos[entityLocatorIterator] && $itPos[entityLocatorIterator] <= N(txnG)
+//@     invariant forall j int :: pos0G <= j && j < $itPos[entityLocatorIterator] ==> kcl(K(txnG, j)) == 1 && k64at2(K(txnG, j)) == internalID
+//@     invariant previousDatasetID != 0 ==> pos0G <= accG && accG < $itPos[entityLocatorIterator] && k32at10(K(txnG, accG)) == previousDatasetID && arrOf(prevValueBytes) == valG
+//@     invariant previousDatasetID == 0 ==> accG == 0 - 1
+//@     invariant forall d uint32 :: has(emittedG, d) ==> d < previousDatasetID
+//@     invariant [C06,C01:no-eligible-version-is-passed-over] forall j int :: pos0G <= j && j < $itPos[entityLocatorIterator] && krid(K(txnG, j)) <= at && !(has(s.deletedDatasets, k32at10(K(txnG, j))) && s.deletedDatasets[k32at10(K(txnG, j))]) && (len(targetDatasetIds) == 0 || (exists k int :: 0 <= k && k < len(targetDatasetIds) && targetDatasetIds[k] == k32at10(K(txnG, j)))) ==> j <= accG
+//@   loop 2
+//@     invariant -1 <= $i && $i < len(targetDatasetIds)
+//@     invariant datasetIncluded <==> (len(targetDatasetIds) == 0 || (exists k int :: 0 <= k && k <= $i && targetDatasetIds[k] == currentDatasetID))
+
+// ---------------------------------------------------------------------------
 // C09 (and C08): the full-sync state machine of a dataset
 
 //@ assumed context.WithTimeout
